@@ -153,6 +153,21 @@ theorem wrap_levels_concatenate {specs : Nat → Option Val} {st st1 st2 : St} {
   refine ⟨?_, (buildLevel_ok hi h1).inv⟩
   simp [buildDef, bind, Except.bind, h1, h2]
 
+/-- the layout depends on the VALUE of `rates` only, and a list that was already padded / had its
+    `None` entries resolved to 0 by an earlier build (what `_args_to_controls` computes internally)
+    gives the same ControlNames as the original: reusing one rates object for several builds is
+    harmless as long as the code resolves `None` to 0 and nothing else (the seeded change C04-r4m3
+    resolved it to the annotation, in the caller's list). -/
+theorem rates_padding_idempotent (rates : List RateSpec) (n : Nat) :
+    padRates (padRates rates n) n = padRates rates n := by
+  have hlen : n ≤ (padRates rates n).length := padRates_length rates n
+  unfold padRates at hlen ⊢
+  rw [Nat.sub_eq_zero_of_le hlen]
+  simp only [List.replicate_zero, List.append_nil, List.map_map]
+  apply List.map_congr_left
+  intro r _
+  cases r <;> rfl
+
 /-! ## variants -/
 
 /-- a variant block is the default slot array with exactly the named slots replaced -/
